@@ -165,7 +165,15 @@ struct MachineConfig {
   bool record_events = true;
   long magnitude_bits = 120; // beyond: outside the model
   bool remake_outside = false; // KF47 neutraliser (see machine.cpp, make_ref)
+  // BV profile (DESIGN.md 4.5): integers are two's-complement values modulo
+  // 2^width, stored as their signed representative
+  bool bv = false;
 };
+
+// signed representative of v modulo 2^w
+mpz_class bv_wrap(const mpz_class &v, unsigned w);
+// unsigned representative of v modulo 2^w
+mpz_class bv_unsigned(const mpz_class &v, unsigned w);
 
 class Machine {
 public:
@@ -254,6 +262,7 @@ struct RandomScheduler : Scheduler {
   std::vector<mpz_class> pool; // constants harvested from the program
   bool large = false;          // allow large magnitudes
   bool huge = false;           // allow > 64 bit
+  bool bv = false;             // BV profile: values near the signed/unsigned poles of the width
   int loop_budget = 6;
   std::map<std::string, int> visits;
   RandomScheduler(uint64_t seed) : rng(seed), key_seed(mix64(seed ^ 0x5151)) {}
